@@ -157,6 +157,40 @@ func (o *ethOracle) coq(buf []byte) string {
 		hx.CoqNBig(o.gasPrice), o.gas, hx.CoqOpt(o.sender != nil, hx.CoqBytes(o.sender)), hx.CoqBytes(o.sighash), hx.CoqBytes(o.hash))
 }
 
+// ---------- compact printing of input buffers ----------
+
+// bases are the valid transactions of the run, defined once in the header of cases.v as
+// base_<k>; a buffer that shares a long prefix and suffix with one of them is printed as an edit.
+var bases [][]byte
+
+func coqBuf(buf []byte) string {
+	best, bp, bs := -1, 0, 0
+	for k, b := range bases {
+		p := 0
+		for p < len(b) && p < len(buf) && b[p] == buf[p] {
+			p++
+		}
+		s := 0
+		for s < len(b)-p && s < len(buf)-p && b[len(b)-1-s] == buf[len(buf)-1-s] {
+			s++
+		}
+		if p+s > bp+bs {
+			best, bp, bs = k, p, s
+		}
+	}
+	if best < 0 || len(buf) < 24 || len(buf)-(bp+bs) > len(buf)/3 {
+		return hx.CoqBytes(buf)
+	}
+	return fmt.Sprintf("(spl base_%d %d %d %s)", best, bp, len(bases[best])-bp-bs, hx.CoqBytes(buf[bp:len(buf)-bs]))
+}
+
+func registerBases(c *hx.Ctx, bs [][]byte) {
+	bases = bs
+	for k, b := range bs {
+		c.CoqHeader(fmt.Sprintf("Definition base_%d : bytes := %s.", k, hx.CoqBytes(b)))
+	}
+}
+
 // ---------- projection of an accepted transaction ----------
 
 // ref prints a byte string of the outcome as a reference into buf when it occurs there
@@ -338,9 +372,9 @@ func evalDeser(c *hx.Ctx, in *input, emit bool) *result {
 	case in.Kind == "big":
 		c.Case(fmt.Sprintf("CDeserBig %s %d %d %s %d %s %d", hx.CoqBytes(hx.UnHex(in.Pre)), in.Fill, in.N, hx.CoqBytes(hx.UnHex(in.Suf)), in.Start, out, pos), in)
 	case in.Kind == "raw":
-		c.Case(fmt.Sprintf("CRaw %s %s %s", hx.CoqBytes(buf), eo.coq(buf), out), in)
+		c.Case(fmt.Sprintf("CRaw %s %s %s", coqBuf(buf), eo.coq(buf), out), in)
 	default:
-		c.Case(fmt.Sprintf("CDeser %s %s %d %s %s %d", hx.CoqBool(in.Real), hx.CoqBytes(buf), in.Start, eo.coq(buf), out, pos), in)
+		c.Case(fmt.Sprintf("CDeser %s %s %d %s %s %d", hx.CoqBool(in.Real), coqBuf(buf), in.Start, eo.coq(buf), out, pos), in)
 	}
 	if len(buf) > 2 {
 		c.Nontrivial(in.Kind + in.Buf + in.Pre + fmt.Sprint(in.Start, in.N))
